@@ -264,6 +264,10 @@ loop:
 
 	c = b[0]
 
+	// hf is reused from field to field by the callers, so the never-indexed
+	// mark of the previous field must not leak into this one.
+	hf.sensible = false
+
 	switch {
 	// Indexed Header Field.
 	// The value must be indexed in the static or the dynamic table.
